@@ -730,6 +730,7 @@ impl Renderable for Template {
         rc: &mut RenderContext<'reg, 'rc>,
         out: &mut dyn Output,
     ) -> Result<(), RenderError> {
+        let current_template_before = rc.get_current_template_name();
         rc.set_current_template_name(self.name.as_ref());
         let iter = self.elements.iter();
 
@@ -751,6 +752,7 @@ impl Renderable for Template {
             })?;
         }
 
+        rc.set_current_template_name(current_template_before);
         Ok(())
     }
 }
